@@ -44,13 +44,13 @@ deriving DecidableEq
 
 instance : Repr FKey := ⟨fun k _ => repr k.val⟩
 instance : Inhabited FKey := ⟨⟨0, by decide⟩⟩
-instance : LE FKey := ⟨fun a b => a.val ≤ b.val⟩
-instance : LT FKey := ⟨fun a b => a.val < b.val⟩
-instance : DecidableLE FKey := fun a b => inferInstanceAs (Decidable (a.val ≤ b.val))
-instance : DecidableLT FKey := fun a b => inferInstanceAs (Decidable (a.val < b.val))
-instance : Min FKey := ⟨fun a b => if a.val ≤ b.val then a else b⟩
-instance : Max FKey := ⟨fun a b => if a.val ≤ b.val then b else a⟩
-instance : HasInf FKey := ⟨⟨KMAX, by decide⟩, ⟨-KMAX, by decide⟩⟩
+instance FKey.instLE : LE FKey := ⟨fun a b => a.val ≤ b.val⟩
+instance FKey.instLT : LT FKey := ⟨fun a b => a.val < b.val⟩
+instance FKey.instDecLE : DecidableLE FKey := fun a b => inferInstanceAs (Decidable (a.val ≤ b.val))
+instance FKey.instDecLT : DecidableLT FKey := fun a b => inferInstanceAs (Decidable (a.val < b.val))
+instance FKey.instMin : Min FKey := ⟨fun a b => if a.val ≤ b.val then a else b⟩
+instance FKey.instMax : Max FKey := ⟨fun a b => if a.val ≤ b.val then b else a⟩
+instance FKey.instHasInf : HasInf FKey := ⟨⟨KMAX, by decide⟩, ⟨-KMAX, by decide⟩⟩
 
 /-- value key of a float64 bit pattern; `none` for NaN -/
 def keyOfBits (u : UInt64) : Option FKey :=
